@@ -136,6 +136,20 @@ fn families(quick: bool) -> Vec<LmFamily> {
         offsets: vec![0.0],
         named: false,
     });
+    // rows whose largest-magnitude coefficient is negative and far from 1 (2048, 2^-11)
+    v.push(LmFamily {
+        name: "S11-badly-scaled-rows-n2m1",
+        n: 2,
+        m: 1,
+        doms: vec![Dom::NonNegB(0.0, 8.0), Dom::Real(-100.0, 100.0), Dom::NonNeg],
+        coefs: vec![-2048.0, -0.00048828125, 0.0, 1.0, 2048.0],
+        rhss: vec![-1024.0, 0.0, 1.0],
+        rels: vec![Rel::Le, Rel::Ge, Rel::Eq],
+        objs: vec![-1.0, 1.0],
+        senses: vec![Sense::Min, Sense::Max],
+        offsets: vec![0.0],
+        named: false,
+    });
     v.push(LmFamily {
         name: "S8-n3m1",
         n: 3,
